@@ -55,8 +55,15 @@ func FindClass(name string) (c Class) {
 			return nil
 		}
 		name = name[index+1:]
+		return pkg.FindClass(name)
 	}
-	return pkg.FindClass(name)
+	if c = pkg.FindClass(name); c == nil && pkg != &UserPkg {
+		// The built in classes, the condition classes among them, are in
+		// the user package. They must be found when a condition is raised
+		// while the current package does not use that package.
+		c = UserPkg.FindClass(name)
+	}
+	return
 }
 
 // RegisterClass a class.
